@@ -121,15 +121,64 @@ pub struct Objects {
     pub nrules: usize,
 }
 
+/// Appended to every name and step text when a universe is built "decorated"
+/// (C14: quotes, markup, CDATA terminator, non-ASCII).
+pub const DECOR: &str = " \"q\" <&> \u{e9}\u{4e16} 'a' \\n";
+/// The same plus a CDATA terminator.
+pub const DECOR_CDATA: &str = " \"q\" <&> ]]> \u{e9}\u{4e16} 'a' \\n";
+
+/// A name without the decoration.
+pub fn plain_name(n: &str) -> String {
+    n.strip_suffix(DECOR)
+        .or_else(|| n.strip_suffix(DECOR_CDATA))
+        .unwrap_or(n)
+        .to_owned()
+}
+
+fn decorate(f: &mut gherkin::Feature, decor: &str) {
+    let d = |s: &mut String| s.push_str(decor);
+    d(&mut f.name);
+    let steps = |v: &mut Vec<gherkin::Step>| v.iter_mut().for_each(|st| d(&mut st.value));
+    if let Some(b) = f.background.as_mut() {
+        steps(&mut b.steps);
+    }
+    for s in &mut f.scenarios {
+        d(&mut s.name);
+        steps(&mut s.steps);
+    }
+    for r in &mut f.rules {
+        d(&mut r.name);
+        if let Some(b) = r.background.as_mut() {
+            steps(&mut b.steps);
+        }
+        for s in &mut r.scenarios {
+            d(&mut s.name);
+            steps(&mut s.steps);
+        }
+    }
+}
+
 impl Objects {
     pub fn new(specs: &[FeatureSpec]) -> Self {
+        Self::construct(specs, None)
+    }
+
+    pub fn new_decorated(specs: &[FeatureSpec], cdata: bool) -> Self {
+        Self::construct(specs, Some(if cdata { DECOR_CDATA } else { DECOR }))
+    }
+
+    fn construct(specs: &[FeatureSpec], deco: Option<&str>) -> Self {
         let mut feats = HashMap::new();
         let mut rules = HashMap::new();
         let mut scens = HashMap::new();
         let mut nsteps = 0;
         let mut nrules = 0;
         for spec in specs {
-            let f = spec.build();
+            let mut f = spec.build();
+            // keys of the maps below stay the plain names
+            if let Some(d) = deco {
+                decorate(&mut f, d);
+            }
             let fb: Vec<gherkin::Step> = f
                 .background
                 .as_ref()
@@ -140,9 +189,9 @@ impl Objects {
                 steps.extend(s.steps.iter().cloned());
                 nsteps += s.steps.len();
                 scens.insert(
-                    s.name.clone(),
+                    plain_name(&s.name),
                     (
-                        f.name.clone(),
+                        plain_name(&f.name),
                         String::new(),
                         Source::new(s.clone()),
                         steps,
@@ -162,18 +211,18 @@ impl Objects {
                     steps.extend(s.steps.iter().cloned());
                     nsteps += s.steps.len();
                     scens.insert(
-                        s.name.clone(),
+                        plain_name(&s.name),
                         (
-                            f.name.clone(),
-                            r.name.clone(),
+                            plain_name(&f.name),
+                            plain_name(&r.name),
                             Source::new(s.clone()),
                             steps,
                         ),
                     );
                 }
-                rules.insert(r.name.clone(), Source::new(r.clone()));
+                rules.insert(plain_name(&r.name), Source::new(r.clone()));
             }
-            feats.insert(f.name.clone(), Source::new(f));
+            feats.insert(plain_name(&f.name), Source::new(f));
         }
         Self { specs: specs.to_vec(), feats, rules, scens, nsteps, nrules }
     }
@@ -329,7 +378,7 @@ impl Objects {
         let mut neg = false;
         if t == "Sc" && d.get("step").is_some() {
             i = self.step_index(
-                s("s"),
+                &plain_name(s("s")),
                 s("step"),
                 d["line"].as_u64().unwrap_or(0),
             );
@@ -337,7 +386,7 @@ impl Objects {
             // the step's position.  An event whose kind contradicts that
             // position is projected with a negated index, so it can never
             // equal the expected event.
-            if let Some((_, _, sc, steps)) = self.scens.get(s("s")) {
+            if let Some((_, _, sc, steps)) = self.scens.get(&plain_name(s("s"))) {
                 let nbg = steps.len().saturating_sub(sc.steps.len()) as u64;
                 let declared_bg = i >= 1 && i <= nbg;
                 if i >= 1 && d["bg"].as_bool() != Some(declared_bg) {
@@ -346,7 +395,7 @@ impl Objects {
             }
         }
         json!({
-            "t": t, "f": s("f"), "r": s("r"), "s": s("s"), "k": s("k"),
+            "t": t, "f": plain_name(s("f")), "r": plain_name(s("r")), "s": plain_name(s("s")), "k": s("k"),
             "h": s("h"), "i": if neg { -(i as i64) } else { i as i64 }, "err": s("err"),
             "cur": d.get("cur").and_then(Value::as_u64).unwrap_or(0),
             "left": d.get("left").and_then(Value::as_u64).unwrap_or(0),
